@@ -119,7 +119,8 @@ def obligation(prog, enums, structs, kind, policy_sets, n_rows=2, only=None):
                 t = z3.BitVec("msgtype", 8)
                 e.assume(z3.And(t != DISCOVER, t != REQUEST))
                 e.env["msgtype"] = t
-        ids = [z3.BitVec("ourid0", 32)]
+        # the set of addresses this server has identified itself with: empty (before its first reply) or one address
+        ids = [] if (kind == "request" and e.choose([None, None]) == 0) else [z3.BitVec("ourid0", 32)]
         e.env["ids"] = ids
         e.env["serverid"] = z3.BitVec("serverid", 32) if e.choose([None, None]) == 0 else None
         e.env["opt50"] = z3.BitVec("opt50", 32) if e.choose([None, None]) == 0 else None
@@ -161,7 +162,7 @@ def obligation(prog, enums, structs, kind, policy_sets, n_rows=2, only=None):
             claims.append(("only DISCOVER and REQUEST are answered", z3.BoolVal(kind in ("discover", "request"))))
             if kind == "request" and sid is not None:
                 claims.append(("a REQUEST naming a server is answered only if it names an address this server identified itself with",
-                               z3.Or([sid == i for i in env["ids"]])))
+                               z3.Or([sid == i for i in env["ids"]]) if env["ids"] else z3.BoolVal(False)))
             y = field(structs, reply, "yiaddr").fields[0].t
             claims.append(("reply echoes transaction id, flags, relay address and hardware address; op = BOOTREPLY",
                            z3.And([field(structs, reply, "xid").t == hdr["xid"], field(structs, reply, "flags").t == hdr["flags"],
